@@ -18,6 +18,7 @@ passwd and group are not machine-checked yet — they are exercised by `corr:for
 -/
 import Apko.Proofs.Lemmas.FormatsIndex
 import Apko.Proofs.Lemmas.FormatsPasswd
+import Apko.Proofs.Lemmas.FormatsIdbSample
 
 namespace Apko.C16
 open Apko Apko.Formats
@@ -240,5 +241,104 @@ example : WFUser sampleUser = true := by decide
 example : WFGroup sampleGroup = true := by decide
 example : canonText canonUserLine (writeUsers [sampleUser, sampleUser]) = true := by decide
 example : canonText canonGroupLine (writeGroups [sampleGroup, noMembers]) = true := by decide
+
+/-! ## installed db -/
+
+set_option maxRecDepth 1000000 in
+/-- over the regenerated tables: the lines of `PackageToInstalled` are the `i:` line (printed with `%s`
+of a `[]string`, read with `splitRepeatedField`) plus rows that satisfy `tableOK` with the cases of
+`ParseInstalled`; every field of the record has a line -/
+theorem field_inverse_idb_table : idbTableOK idbRows idbCases = true := by decide
+
+set_option maxRecDepth 1000000 in
+/-- over the regenerated switch: `F:` `M:` `R:` `a:` are the file cases (the parsed permissions reach
+`pkg.Files`), `Z:` has no case -/
+theorem field_inverse_idb_files : fileCasesOK idbCases = true := by decide
+
+/-- `sortTarHeaders_parent_adjacent`: in the order `AddInstalledPackage` writes headers, every
+non-directory record is preceded by the record of its parent directory with only non-directory
+records in between (or stands before every directory record and is a top-level name) — so the `R:`
+lines are read back against the right `F:` line.  Holds for every input on which `sortTarHeaders`
+terminates. -/
+theorem sortTarHeaders_parent_adjacent (hs out : List FileRec) (h : sortHeaders hs = some out)
+    (pre post : List FileRec) (f : FileRec) (e : out = pre ++ f :: post) (hf : f.isDir = false) :
+    (∃ p1 d run, pre = p1 ++ d :: run ∧ d.isDir = true ∧ (∀ r ∈ run, r.isDir = false) ∧
+        pathClean d.name = pathDir (pathClean f.name)) ∨
+    ((∀ r ∈ pre, r.isDir = false) ∧ pathDir (pathClean f.name) = ['.']) :=
+  sortHeaders_parent_adjacent hs out h pre post f e hf
+
+/-- … and `sortTarHeaders` invents no record -/
+theorem sortTarHeaders_subset (hs out : List FileRec) (h : sortHeaders hs = some out) : ∀ f ∈ out, f ∈ hs :=
+  (sortHeaders_followsDir hs out h).2
+
+/-- `idb_read_write` (whole file): for every list of well-formed installed packages (`WFIPkg`: named,
+fields free of LF/CR, list items non-empty and free of space, integers in range, header names clean,
+relative and free of LF/CR, owners in `int64`) whose rendering succeeds and keeps every line within the
+scanner buffer, `ParseInstalled` of what the `AddInstalledPackage` calls wrote returns, package by
+package, `readBack`: every package field except `install_if` (F16a-idb), and for every header that
+`sortTarHeaders` emits (F16h: top-level files and childless top-level directories are not emitted)
+path, dir / non-dir, permission bits (`& 0o777`, F16d), uid and gid (no checksum, F16c). -/
+theorem idb_read_write (c : Codec) (hc : c.Lawful) (ips : List IPkg) (t : Text)
+    (hr : renderInstalledAll c idbRows ips = .ok t) (hwf : ∀ ip ∈ ips, WFIPkg ip = true)
+    (hfit : linesFit defaultTokenMax (rawLines t) = true) :
+    parseInstalled c idbCases idbGuarded t = .ok (ips.map readBack) :=
+  parseInstalled_render c hc idbCases idbGuarded idbRows field_inverse_idb_table field_inverse_idb_files ips t hr hwf hfit
+
+/-- the package part of `readBack`: all fields except `install_if` -/
+theorem idb_read_write_fields (ip : IPkg) (f : Field) (hf : f ≠ .installIf) :
+    get (readBack ip).pkg f = get ip.pkg f := idbProj_get ip.pkg f hf
+
+/-- `idb_files_read_write`: for a header list that is already in `sortTarHeaders` order, every record
+comes back with its path, kind, permission bits and owner -/
+theorem idb_files_read_write (c : Codec) (hc : c.Lawful) (ip : IPkg) (t : Text)
+    (hstable : sortHeaders ip.files = some ip.files)
+    (hr : renderInstalled c idbRows ip = .ok t) (hwf : WFIPkg ip = true)
+    (hfit : linesFit defaultTokenMax (rawLines t) = true) :
+    parseInstalled c idbCases idbGuarded t = .ok [⟨idbProj ip.pkg, ip.files.map fileProj⟩] := by
+  have h := idb_read_write c hc [ip] t (by simp [renderInstalledAll, hr, Res.bind]) (by simpa using hwf) hfit
+  simpa [readBack, hstable] using h
+
+/-- what `fileProj` keeps -/
+theorem fileProj_keeps (f : FileRec) :
+    (fileProj f).name = f.name ∧ (fileProj f).isDir = f.isDir ∧ (fileProj f).uid = f.uid ∧
+    (fileProj f).gid = f.gid ∧ (fileProj f).mode = f.mode.emod 512 ∧
+    (0 ≤ f.mode → f.mode ≤ 0o777 → (fileProj f).mode = f.mode) := by
+  refine ⟨rfl, rfl, rfl, rfl, rfl, ?_⟩
+  intro h1 h2
+  exact Int.emod_eq_of_lt h1 (by omega)
+
+def sampleFileLines : List Text := match filesLines idCodec sampleFiles with | .ok fl => fl | _ => []
+theorem sampleFileLines_ok : filesLines idCodec sampleFiles = .ok sampleFileLines := by decide
+
+set_option maxRecDepth 100000 in
+/-- the hypotheses are satisfiable by a non-trivial package (nested directories, special modes,
+owners, negative gid, both checksum forms, every list shape, maximal integer): well-formed, in
+`sortTarHeaders` order, renders, fits -/
+example : WFIPkg sampleIPkg = true ∧ sortHeaders sampleIPkg.files = some sampleIPkg.files ∧
+    ∃ t, renderInstalled idCodec idbRows sampleIPkg = .ok t ∧ linesFit defaultTokenMax (rawLines t) = true := by
+  refine ⟨by decide, sampleFiles_sorted, ?_⟩
+  unfold renderInstalled
+  rw [show sampleIPkg.files = sampleFiles from rfl, sampleFiles_sorted]
+  simp only [sampleFileLines_ok, Res.bind]
+  exact ⟨_, rfl, by decide⟩
+
+/-- … and by headers in a different order (the theorem then speaks about the sorted list) -/
+example : WFIPkg sampleIPkg' = true ∧ sortHeaders sampleIPkg'.files = some sampleFiles := ⟨by decide, sampleFiles_shuffled⟩
+
+/-- the full statement of `idb_read_write` (everything comes back) … -/
+def idb_read_write_full : Prop :=
+  ∀ (c : Codec), c.Lawful → ∀ (ips : List IPkg) (t : Text), renderInstalledAll c idbRows ips = .ok t →
+    (∀ ip ∈ ips, WFIPkg ip = true) → linesFit defaultTokenMax (rawLines t) = true →
+    parseInstalled c idbCases idbGuarded t = .ok (ips.map fun ip => ⟨ip.pkg, (sortHeaders ip.files).getD []⟩)
+
+/-- … is false: F16a-idb (`install_if`, even when empty), F16c (checksum), F16d (mode bits above 0o777) -/
+theorem idb_read_write_full_fails_installIf :
+    readBack ⟨{ name := ['a'] }, []⟩ ≠ ⟨{ name := ['a'] }, []⟩ := by
+  rw [readBack, sortHeaders_nil]; decide
+
+theorem idb_read_write_full_fails_files :
+    sampleFiles.map fileProj ≠ sampleFiles ∧
+    (sampleFiles.map fileProj).map (fun f => (f.name, f.isDir, f.uid, f.gid)) =
+      sampleFiles.map (fun f => (f.name, f.isDir, f.uid, f.gid)) := by decide
 
 end Apko.C16
